@@ -112,7 +112,7 @@ func generate(prop, tier, lane string, seed uint64, worker, run int) *Scenario {
 	switch prop {
 	case "C11":
 		// a fixed small share of the runs gets a subject beyond 2^16 keys
-		c11Huge = lane == "sim" && ((run == 2 && worker < 8) || (tier == "thorough" && run%400 == 399) || os.Getenv("SLIMSIM_C11_ALL_HUGE") != "")
+		c11Huge = lane == "sim" && ((run == 2 && worker < 16) || (tier == "thorough" && run%400 == 399) || os.Getenv("SLIMSIM_C11_ALL_HUGE") != "")
 		// the first runs of every worker process: nothing of the library has
 		// been called yet, the readers are the first callers (cold start)
 		c11ForceCold = run < 2
